@@ -4,6 +4,7 @@ package main
 // context's deadline.
 
 import (
+	"github.com/cenkalti/backoff/v4"
 	"strings"
 	"math/rand"
 	"context"
@@ -198,6 +199,12 @@ func doTime(a []string) (string, string) {
 		return "dial-failed", ""
 	}
 	defer t.Close()
+	// a trailing "f" on the call name: a constant 5 ms back-off instead of the 500 ms exponential default, so that a deadline
+	// of a few hundred ms sees MANY attempts (what only shows at the fourth or later attempt of one call)
+	if strings.HasSuffix(call, "f") {
+		call = strings.TrimSuffix(call, "f")
+		bmc.VerifSetBackOff(t, backoff.NewConstantBackOff(5*time.Millisecond))
+	}
 	var sess *bmc.V2Session
 	if call == "cmd" || call == "close" || call == "sdr" {
 		ctx, cancel := context.WithTimeout(context.Background(), 5*time.Second)
@@ -321,6 +328,12 @@ func genTime(g *genCtx) {
 		// the same call twice while the fault persists (faults under which no reply is ever a valid response)
 		for _, f := range []string{"blackhole", "garbage", "busy"} {
 			ops = append(ops, Op{Class: 'P', NonTrivial: true, Kind: "time", Args: []string{c, "60", "150", f, "again"}})
+		}
+		// many attempts within the deadline (fast back-off): 30 ms per attempt, 500 ms in all
+		if c == "sl" || c == "hs" || c == "cmd" {
+			for _, f := range []string{"blackhole", "garbage", "busy"} {
+				ops = append(ops, Op{Class: 'P', NonTrivial: true, Kind: "time", Args: []string{c + "f", "30", "500", f}})
+			}
 		}
 		// control: a well-behaved BMC
 		ops = append(ops, Op{Class: 'P', NonTrivial: false, Kind: "time", Args: []string{c, "200", "2000", "none"}})
